@@ -8,13 +8,17 @@ from pyvc.contract import class_spec, contract
 
 F = "dulwich/file.py"
 
+# the buffered file object behind a handle: ghost flags for the publish-after-payload order (C09)
+class_spec(file="<abstract>", cls="FileAbs", fields={"flushed": "bool", "synced": "bool"},
+           init={"flushed": "False", "synced": "False"})
 class_spec(file=F, cls="_GitFile", fields={
-    "_closed": "bool", "_fsync": "bool", "_file": "opaque", "_filename": "opaque", "_lockfilename": "opaque",
+    "_closed": "bool", "_fsync": "bool", "_file": "obj:FileAbs", "_filename": "opaque", "_lockfilename": "opaque",
     "_shared_perm": "opaque", "owns": "bool", "committed": "bool", "stuck": "bool"},
     init={"owns": "False", "committed": "False", "stuck": "False"},
     # only the methods under contract below change these (syntactic guard: uncontracted-mutator /
     # uncontracted-effect-callee); everything else on a handle is a proxy to the underlying file object
     stable=["owns", "committed", "stuck", "_closed", "_filename", "_lockfilename", "_file", "_fsync", "_shared_perm"],
+    # 
     mutators=["close", "abort", "__exit__", "__del__", "__init__"])
 # `stuck`: the operating system refused to remove the lock file (os.remove itself failed): the one
 # situation in which a lock cannot be released by anyone's code.
@@ -31,10 +35,27 @@ contract(
     ensures=["self.owns"],
     note="open(O_CREAT|O_EXCL) succeeds only if the lock file did not exist; the caller then owns it",
 )
+contract(prop=["C07", "C09"], file="<abstract>", func="FileAbs.flush", trusted=True,
+         params={"self": "obj:FileAbs"}, returns="None", modifies=["self.flushed"],
+         raises={"BaseException": ["self.flushed == old(self.flushed)"]}, ensures=["self.flushed"])
+contract(prop=["C07", "C09"], file="<abstract>", func="FileAbs.close", trusted=True,
+         params={"self": "obj:FileAbs"}, returns="None", raises={"BaseException": None})
+contract(prop=["C07", "C09"], file="<abstract>", func="FileAbs.fileno", trusted=True,
+         params={"self": "obj:FileAbs"}, returns="opaque", raises={"BaseException": None})
+contract(prop=["C07", "C09"], file="<stdlib>", func="os.fsync@lock", trusted=True,
+         params={"fd": "opaque"}, free={"self": "obj:_GitFile"}, returns="None", modifies=["self._file.synced"],
+         raises={"BaseException": ["self._file.synced == old(self._file.synced)"]}, ensures=["self._file.synced"],
+         note="fsync of the lock file's descriptor")
+contract(prop=["C07", "C09"], file="<stdlib>", func="os.fdopen@lock", trusted=True,
+         params={"fd": "opaque", "mode": "opaque", "bufsize": "opaque"}, returns="obj:FileAbs",
+         raises={"BaseException": None}, ensures=["not result.flushed", "not result.synced"])
 contract(
     prop=["C07"], file="<stdlib>", func="os.replace@lock", trusted=True,
     params={"src": "opaque", "dst": "opaque"}, free={"self": "obj:_GitFile"}, returns="None",
-    requires=["self.owns"],                                   # ghost-pre: only the owner renames the lock file
+    requires=["self.owns",                                    # ghost-pre: only the owner renames the lock file
+              # C09 publish-after-payload: the content is flushed (and fsynced when enabled) before the
+              # rename makes it visible under the final name
+              "self._file.flushed", "(not self._fsync) or self._file.synced"],
     modifies=["self.owns", "self.committed"],
     raises={ANY: ["self.owns == old(self.owns) and self.committed == old(self.committed)"]},
     ensures=["not self.owns", "self.committed"],
@@ -50,7 +71,7 @@ contract(
     note="removing the lock file releases it; allowed only to its owner (M1)",
 )
 PRIMS = {"os.open": "os.open@lock", "os.replace": "os.replace@lock", "os.remove": "os.remove@lock",
-         "os.rename": "os.replace@lock", "os.unlink": "os.remove@lock"}
+         "os.rename": "os.replace@lock", "os.unlink": "os.remove@lock", "os.fsync": "os.fsync@lock", "os.fdopen": "os.fdopen@lock"}
 OPTS = {"primitives": PRIMS, "faults": "base"}
 
 contract(
@@ -81,7 +102,7 @@ contract(
               # a failing writer never commits: close() (= commit) is not reached from an except/finally
               # arm that is running because of an exception
               "self._closed or not handling_exception()"],
-    modifies=["self._closed", "self.owns", "self.committed", "self.stuck"],
+    modifies=["self._closed", "self.owns", "self.committed", "self.stuck", "self._file.flushed", "self._file.synced"],
     raises={ANY: ["not self.owns or self.stuck", "self.committed == old(self.committed)", INV]},   # failed write: old content stays, lock released
     ensures=["not self.owns", "self._closed", "old(self._closed) or self.committed"],
     options=OPTS,
@@ -90,7 +111,7 @@ contract(
     prop=["C07", "C09"], file=F, func="_GitFile.__exit__",
     params={"self": "obj:_GitFile", "exc_type": "opaque?", "exc_val": "opaque", "exc_tb": "opaque"}, returns="None",
     requires=[INV, "self._closed or not self.committed"],
-    modifies=["self._closed", "self.owns", "self.committed", "self.stuck"],
+    modifies=["self._closed", "self.owns", "self.committed", "self.stuck", "self._file.flushed", "self._file.synced"],
     raises={ANY: ["not self.owns or self.stuck", "self.committed == old(self.committed)", INV]},
     ensures=["not self.owns", "self._closed", "exc_type is None or self.committed == old(self.committed)",
              "exc_type is not None or old(self._closed) or self.committed"],
@@ -126,7 +147,8 @@ for _cls, _hash in (("SHA1Writer", "sha1"), ("HashWriter", "hash_obj")):
              params={"self": f"obj:{_cls}"}, returns="None",
              requires=["self.f._closed == (not self.f.owns)", "self.f._closed or not self.f.committed",
                        "self.f._closed or not handling_exception()"],
-             modifies=["self.length", f"self.{_hash}", "self.digest", "self.f._closed", "self.f.owns", "self.f.committed", "self.f.stuck"],
+             modifies=["self.length", f"self.{_hash}", "self.digest", "self.f._closed", "self.f.owns", "self.f.committed", "self.f.stuck",
+                       "self.f._file.flushed", "self.f._file.synced"],
              # if writing the trailer fails the handle is left as it was (still open: the caller's
              # error path must abort it); if the handle's close() fails it has released the lock
              raises={ANY: ["self.f.committed == old(self.f.committed)", "self.f._closed == (not self.f.owns)"]},
